@@ -139,8 +139,8 @@ Lemma V_cplx_unitary : chk_unitary V_cplx = true. Proof. vm_compute. reflexivity
 Theorem generate_mprocess_mode1_refuted :
   chk_induces (gm_mode1_cb_prefix QF 2 w_eig V_real) (eig_matrix V_real) = false /\
   chk_induces (gm_mode1_cb_prefix QF 2 w_eig V_cplx) (eig_matrix V_cplx) = false /\
-  chk_induces (gm_mode1_cb QF 2 w_eig V_real) (eig_matrix V_real) = true /\
-  chk_induces (gm_mode1_cb QF 2 w_eig V_cplx) (eig_matrix V_cplx) = true /\
+  chk_induces (gm_mode1_cb QF 2 w_atol w_eig V_real) (eig_matrix V_real) = true /\
+  chk_induces (gm_mode1_cb QF 2 w_atol w_eig V_cplx) (eig_matrix V_cplx) = true /\
   chk_induces (gm_mode1_cb_doc QF 2 w_eig V_real) (eig_matrix V_real) = true /\
   chk_induces (gm_mode1_cb_doc QF 2 w_eig V_cplx) (eig_matrix V_cplx) = true.
 Proof. vm_compute. repeat split; reflexivity. Qed.
@@ -158,9 +158,9 @@ Lemma V_cplx_cols : cols_orthonormal QF 2 V_cplx. Proof. exact (chk_unitary_cols
 Definition chk_meq2 (A B : cmat QF) : bool := alln 2 (fun i => alln 2 (fun j => ceqb (A i j) (B i j))).
 Lemma chk_meq2_spec A B : chk_meq2 A B = true -> meq 2 2 A B.
 Proof. intros H i j Hi Hj. exact (ceqb_spec _ _ (alln_spec _ _ (alln_spec _ _ H i Hi) j Hj)). Qed.
-Lemma eig_matrix_spectral_cplx : meq 2 2 (eig_matrix V_cplx) (spectral QF 2 w_eig V_cplx).
+Lemma eig_matrix_spectral_cplx : meq 2 2 (eig_matrix V_cplx) (spectral QF 2 V_cplx w_eig).
 Proof. apply chk_meq2_spec. vm_compute. reflexivity. Qed.
-Lemma eig_matrix_spectral_real : meq 2 2 (eig_matrix V_real) (spectral QF 2 w_eig V_real).
+Lemma eig_matrix_spectral_real : meq 2 2 (eig_matrix V_real) (spectral QF 2 V_real w_eig).
 Proof. apply chk_meq2_spec. vm_compute. reflexivity. Qed.
 (* a Hermitian square root: S = [[3/5, i/5],[-i/5, 2/5]], Pi := S S *)
 Definition S_herm : cmat QF := cmat_of_rows [[cq (q 3 5) (q 0 1); cq (q 0 1) (q 1 5)]; [cq (q 0 1) (q (-1) 5); cq (q 2 5) (q 0 1)]].
@@ -197,3 +197,18 @@ Proof. apply Qc_is_canon. vm_compute. reflexivity. Qed.
 From QV.Proofs Require C02_Conv.
 Lemma pauli2_complete : basis_complete 4 pauli2.
 Proof. apply (C02_Conv.complete_dec_sound QF). vm_compute. reflexivity. Qed.
+
+(* ---- generate_mprocess(mode 1), degenerate spectrum: eigh returned the eigenvalues (1, 1 + 1e-14) of the trivial effect I (bitwise
+   different, within atol = 1e-13) with the rotation V_real as eigenvectors.  The code (grouping tolerance atol) forms ONE group with
+   projector V V^dagger = I: the identity channel, the state is not disturbed.  As coded BEFORE fix
+   povm-generate-mprocess-mode1-eigenspace-tolerance (tol = 0: bitwise equality) two rank-one groups are formed and the instrument
+   dephases in the arbitrary basis V - although the POVM element is (up to 1e-14) the identity *)
+Definition w_deg : nat -> Qc := fun k => match k with 0%nat => q 1 1 | _ => (q 1 1 + q 1 100000000000000)%Qc end.
+Definition chk_identity_channel (H : cmat QF) : bool :=
+  alln 4 (fun r => alln 4 (fun c => ceqb (H r c) (if Nat.eqb r c then one else cz))).
+Theorem generate_mprocess_mode1_eigenspace_refuted :
+  chk_unitary V_real = true /\ Qc_eq_bool (w_deg 0%nat) (w_deg 1%nat) = false /\ kleb QF (absF' QF (w_deg 1%nat - w_deg 0%nat)%Qc) w_atol = true /\
+  chk_identity_channel (gm_mode1_cb QF 2 w_atol w_deg V_real) = true /\
+  chk_identity_channel (gm_mode1_cb QF 2 0%Qc w_deg V_real) = false.
+Proof. vm_compute. repeat split; reflexivity. Qed.
+Lemma w_atol_nonneg : kle QF (c0 QF) w_atol. Proof. apply (k_leb QF). vm_compute. reflexivity. Qed.
